@@ -1261,6 +1261,11 @@ func c15HelpersDefinedFirst(w *World, wc *wireCtx, r *Report) {
 			if m := fwdRE.FindStringSubmatch(f.format); m != nil && m[1] == prefix {
 				fwd = true
 			}
+			// a declaration list assembled from names (`local %s` with a joined list): a "local" line without `function` and
+			// without an initialiser, emitted by the function that also drives the definitions
+			if t := strings.TrimSpace(f.format); strings.HasPrefix(t, "local %s") && !strings.Contains(t, "=") && !strings.Contains(t, "function") {
+				fwd = true
+			}
 		}
 		key := fmt.Sprintf("local functions %s<packet> are defined before the functions that call them", prefix)
 		if len(uses) == 0 {
@@ -1386,4 +1391,140 @@ func dependenciesFirstOrder(w *World, g *ssa.Function) bool {
 		}
 	}
 	return viaObject && viaMatch && postOrder && visitedSet
+}
+
+// C07|C17/go-imports-used: the Go compiler rejects a file that imports a package it does not use.
+//
+// Decided for the Go generator: for every import path in a constant import block it emits, the package's qualified uses
+// (`<name>.` in emitted constants) must include one that is emitted whenever the block is - a use site without control dependences in
+// the emitter of the block or in an emitter that is called from there without control dependences - or the import line itself must be
+// conditional on the emitted code containing such a use (strings.Contains(code, "<name>.")). An import emitted for every file with
+// all its uses inside per-field or per-kind branches makes the files of the packets that do not take those branches fail to build.
+func goImportsUsed(w *World, wc *wireCtx, r *Report, prop string) {
+	rule := prop + "/go-imports-used"
+	own := wc.anchors["go"]["own"]
+	if len(own) == 0 {
+		r.fail(rule, "go emitters found", "internal/parser/go_generator.go", "no emitter of the Go generator resolved")
+		return
+	}
+	importRE := regexp.MustCompile(`(?s)import\s*\((.*?)\)`)
+	pathRE := regexp.MustCompile(`(?m)^\s*(?:([A-Za-z_][A-Za-z_0-9]*)\s+)?"([^"]+)"\s*$`)
+	type piece struct {
+		fn  *ssa.Function
+		ins ssa.Instruction
+		s   string
+	}
+	var pieces []piece
+	for _, fn := range own {
+		forEachInstr(fn, func(_ *ssa.BasicBlock, ins ssa.Instruction) {
+			for _, op := range ins.Operands(nil) {
+				if *op == nil {
+					continue
+				}
+				if k, ok := (*op).(*ssa.Const); ok && k.Value != nil && k.Value.Kind() == constant.String {
+					pieces = append(pieces, piece{fn, ins, constant.StringVal(k.Value)})
+				}
+			}
+		})
+	}
+	cds := map[*ssa.Function]*cdInfo{}
+	cdOf := func(fn *ssa.Function) *cdInfo {
+		if cds[fn] == nil {
+			cds[fn] = computeCD(fn)
+		}
+		return cds[fn]
+	}
+	unconditional := func(ins ssa.Instruction) bool {
+		return len(cdOf(ins.Parent()).allCtrl(ins.Block())) == 0
+	}
+	// alwaysReach: functions whose whole body runs whenever fn runs (calls without control dependences), fn included
+	alwaysReach := func(fn *ssa.Function) map[*ssa.Function]bool {
+		out := map[*ssa.Function]bool{fn: true}
+		work := []*ssa.Function{fn}
+		for len(work) > 0 {
+			f := work[len(work)-1]
+			work = work[:len(work)-1]
+			forEachInstr(f, func(_ *ssa.BasicBlock, ins ssa.Instruction) {
+				c, ok := ins.(ssa.CallInstruction)
+				if !ok || !unconditional(ins) {
+					return
+				}
+				if g := calleeOf(c); g != nil && g.Blocks != nil && !out[g] && g.Pkg == w.Parser {
+					out[g] = true
+					work = append(work, g)
+				}
+			})
+		}
+		return out
+	}
+	n := 0
+	for _, p := range pieces {
+		// a whole import block in one constant, or a single import line (a block assembled line by line)
+		var lines []string
+		if m := importRE.FindStringSubmatch(p.s); m != nil {
+			lines = strings.Split(m[1], "\n")
+		} else if t := strings.TrimSpace(p.s); pathRE.MatchString(t) && strings.Count(t, "\"") == 2 && strings.Contains(t, "/") || t == `"fmt"` || t == `"bytes"` {
+			lines = []string{t}
+		} else {
+			continue
+		}
+		for _, ln := range lines {
+			m := pathRE.FindStringSubmatch(ln)
+			if m == nil {
+				continue
+			}
+			name := m[1]
+			if name == "" {
+				name = m[2][strings.LastIndex(m[2], "/")+1:]
+			}
+			if name == "_" || name == "." {
+				continue
+			}
+			n++
+			key := fmt.Sprintf("%s: import %q is emitted only into files that use it", fnKey(p.fn), m[2])
+			useRE := regexp.MustCompile(`(^|[^A-Za-z_0-9.])` + regexp.QuoteMeta(name) + `\.[A-Za-z_]`)
+			// (a) the import line is conditional on the emitted code containing a use
+			condOK := false
+			for _, d := range cdOf(p.fn).allCtrl(p.ins.Block()) {
+				cond := stripNot(branchCond(d.Branch))
+				if c, ok := cond.(*ssa.Call); ok {
+					if f := c.Call.StaticCallee(); f != nil && f.String() == "strings.Contains" && len(c.Call.Args) == 2 {
+						if k, ok := c.Call.Args[1].(*ssa.Const); ok && k.Value != nil && k.Value.Kind() == constant.String && strings.HasPrefix(constant.StringVal(k.Value), name+".") {
+							condOK = true
+						}
+					}
+				}
+			}
+			if condOK {
+				r.pass(rule, key, w.instrPos(p.ins), "emitted only when the generated code contains "+name+".")
+				continue
+			}
+			// (b) some use is emitted whenever the emitter of the import runs
+			reach := alwaysReach(p.fn)
+			found, any := false, false
+			for _, u := range pieces {
+				if u.ins == p.ins && importRE.MatchString(u.s) {
+					continue
+				}
+				if !useRE.MatchString(u.s) {
+					continue
+				}
+				any = true
+				if reach[u.fn] && unconditional(u.ins) {
+					found = true
+				}
+			}
+			switch {
+			case found:
+				r.pass(rule, key, w.instrPos(p.ins), "a use is emitted unconditionally")
+			case !any:
+				r.fail(rule, key, w.instrPos(p.ins), "the generator never emits a qualified use of "+name+": the Go compiler rejects the file (imported and not used)")
+			default:
+				r.fail(rule, key, w.instrPos(p.ins), "every emitted use of "+name+". sits in a branch or loop (per field, per kind), the import does not: the file of a packet that takes none of those branches is rejected by the Go compiler (imported and not used)")
+			}
+		}
+	}
+	if n == 0 {
+		r.fail(rule, "import blocks found", "internal/parser/go_generator.go", "no constant import block found in the Go emitters")
+	}
 }
